@@ -191,6 +191,18 @@ def check_preview_vs_execute(case, stats, add):
     res = preview(hist, image, k)
     replay = {'v0': v0, 'steps': steps, 'i': i, 'k': k}
     desc = c04.abstract_jumps(hist, [i, k])
+    # a preview is a preview: the database must be exactly as before
+    if B.snapshot('default') != image:
+        B.restore(image, 'default')
+        before = (O.schema_dump('default'), O.row_dump('default'),
+                  O.bookkeeping_dump('default'))
+        preview(hist, image, k)
+        after = (O.schema_dump('default'), O.row_dump('default'),
+                 O.bookkeeping_dump('default'))
+        if before != after:
+            add('C14|preview-modifies-the-database|%s' % desc, replay,
+                {'tables': [t for t in after[0] if after[0][t] !=
+                            before[0].get(t)][:5]})
     if not res.ok:
         stats['preview_rejected'] += 1
         return None
